@@ -1,5 +1,6 @@
 import Bnum.Model.Convert
 import Bnum.Lemmas.AddSub2
+import Bnum.Lemmas.Bits
 namespace Bnum
 open Arr
 
@@ -1380,5 +1381,495 @@ theorem castFromPrim_spec {w n : Nat} {t : PTy} {p : Nat} (s : Bool) (hn : 1 ≤
   cases s
   · exact UI.castFromPrim_spec hn hk hp
   · exact (UI.castFromPrim_spec hn hk hp).map_id
+
+/-- representability in a type of modulus `m` -/
+def repOf (s : Bool) (m : Nat) (z : Int) : Prop := if s then repS m z else repU m z
+
+instance (s : Bool) (m : Nat) (z : Int) : Decidable (repOf s m z) := by
+  unfold repOf; exact inferInstance
+
+/-- the shape of every checked-conversion theorem (C13): never panics; `Ok r` exactly when the
+    source value `z` is representable in the target, and then `r` denotes `z`; `Err` otherwise -/
+def ConvOk (s : Bool) (w n : Nat) (o : Outcome (Option (List Nat))) (z : Int) : Prop :=
+  (repOf s (M w n) z ∧ ∃ r, o = .ok (some r) ∧ WF w n r ∧ valOf s w r = z)
+  ∨ (¬ repOf s (M w n) z ∧ o = .ok none)
+
+theorem ConvOk.ne_panic {s : Bool} {w n : Nat} {o : Outcome (Option (List Nat))} {z : Int}
+    (h : ConvOk s w n o z) : o ≠ .panic := by
+  rcases h with ⟨_, r, rfl, _⟩ | ⟨_, rfl⟩ <;> (intro h; cases h)
+
+theorem ConvOk.ok_iff {s : Bool} {w n : Nat} {o : Outcome (Option (List Nat))} {z : Int}
+    (h : ConvOk s w n o z) : (∃ r, o = .ok (some r)) ↔ repOf s (M w n) z := by
+  rcases h with ⟨h1, r, rfl, _⟩ | ⟨h1, rfl⟩
+  · exact ⟨fun _ => h1, fun _ => ⟨r, rfl⟩⟩
+  · constructor
+    · rintro ⟨r, hr⟩; cases hr
+    · intro h; exact absurd h h1
+
+theorem ConvOk.err_iff {s : Bool} {w n : Nat} {o : Outcome (Option (List Nat))} {z : Int}
+    (h : ConvOk s w n o z) : o = .ok none ↔ ¬ repOf s (M w n) z := by
+  rcases h with ⟨h1, r, rfl, _⟩ | ⟨h1, rfl⟩
+  · constructor
+    · intro h; cases h
+    · intro h; exact absurd h1 h
+  · exact ⟨fun _ => h1, fun _ => rfl⟩
+
+theorem ConvOk.value {s : Bool} {w n : Nat} {o : Outcome (Option (List Nat))} {z : Int}
+    (h : ConvOk s w n o z) {r : List Nat} (hr : o = .ok (some r)) : WF w n r ∧ valOf s w r = z := by
+  rcases h with ⟨_, r', rfl, h2, h3⟩ | ⟨_, rfl⟩
+  · injection hr with hr; injection hr with hr; subst hr; exact ⟨h2, h3⟩
+  · cases hr
+
+/-- a decision `c` that is equivalent to representability, followed by the cast -/
+theorem ConvOk.of_cast {s : Bool} {w n : Nat} {o : Outcome (List Nat)} {z : Int} (c : Bool)
+    (hc : c = true ↔ repOf s (M w n) z) (h : CastOk w n o z) :
+    ConvOk s w n (if c then o.map some else .ok none) z := by
+  cases c
+  · exact Or.inr ⟨fun hr => by simpa using hc.mpr hr, rfl⟩
+  · have hr := hc.mp rfl
+    obtain ⟨r, ho, hwf, hv⟩ := h.value s hr
+    subst ho
+    exact Or.inl ⟨hr, r, rfl, hwf, hv⟩
+
+theorem bits_sub_lz {w n : Nat} {x : List Nat} (hx : WF w n x) :
+    csub (w * n) (UI.leadingZeros w x) = .ok (Spec.bitLen (U w x)) := by
+  unfold csub
+  rw [if_pos (Bits.leadingZeros_le hx), Bits.leadingZeros_spec hx]
+  have := Bits.bitLen_le_of_lt (U_lt hx)
+  congr 1; omega
+
+theorem bits_sub_lo {w n : Nat} {x : List Nat} (hx : WF w n x) :
+    csub (w * n) (UI.leadingOnes w x) = .ok (Spec.bitLen (M w n - 1 - U w x)) := by
+  unfold csub
+  rw [Bits.leadingOnes_spec hx]
+  unfold Spec.leadingOnes Spec.leadingZeros Spec.compl
+  have hu := U_lt hx
+  have : Spec.bitLen (2 ^ (w * n) - 1 - U w x) ≤ w * n :=
+    Bits.bitLen_le_of_lt (show 2 ^ (w * n) - 1 - U w x < 2 ^ (w * n) by unfold M at hu; omega)
+  rw [if_pos (by omega)]
+  congr 1
+  unfold M; omega
+
+theorem M_half (w n : Nat) (h : 1 ≤ w * n) : M w n = 2 * 2 ^ (w * n - 1) := by
+  unfold M; rw [← Nat.pow_succ']; congr 1; omega
+
+theorem two_pow_le_M {w n k : Nat} (h : k ≤ w * n) : 2 ^ k ≤ M w n :=
+  Nat.pow_le_pow_right (by decide) h
+
+/-- `BTryFrom<BUint> for BUint` (`uint_try_from_uint!`) -/
+theorem UI.btryFromU_spec {w₁ n₁ w₂ n₂ : Nat} {x : List Nat} (hw₁ : 1 ≤ w₁) (hw₂ : 1 ≤ w₂)
+    (hn₁ : 1 ≤ n₁) (hn₂ : 1 ≤ n₂) (hdvd : w₁ ∣ w₂ ∨ w₂ ∣ w₁) (hx : WF w₁ n₁ x) :
+    ConvOk false w₂ n₂ (UI.btryFromU w₁ x w₂ n₂) (U w₁ x) := by
+  unfold UI.btryFromU
+  have hcast := castBnum_spec false false hw₁ hw₂ hn₁ hn₂ hdvd hx
+  simp only [valOf, Bool.false_eq_true, if_false] at hcast
+  have hu := U_lt hx
+  rw [hx.1]
+  have hX : (if w₁ * n₁ ≤ w₂ * n₂ then Outcome.ok true
+      else (csub (w₁ * n₁) (UI.leadingZeros w₁ x)).bind fun b => .ok (decide (b ≤ w₂ * n₂)))
+      = .ok (decide (U w₁ x < M w₂ n₂)) := by
+    split
+    · rename_i h
+      have : U w₁ x < M w₂ n₂ := Nat.lt_of_lt_of_le hu (M_le_of_le h)
+      simp [this]
+    · rw [bits_sub_lz hx, Outcome.bind_ok]
+      exact congrArg Outcome.ok (decide_eq_decide.2 (Bits.bitLen_le_iff _ _))
+  dsimp only
+  rw [hX, Outcome.bind_ok]
+  exact ConvOk.of_cast _ (by simp [repOf, repU]) hcast
+
+theorem S_lt_half {w n : Nat} {x : List Nat} (hw : 1 ≤ w) (hn : 1 ≤ n) (hx : WF w n x) :
+    2 * S w x < M w n ∧ -(M w n : Int) ≤ 2 * S w x := by
+  have := S_repS hw hn hx
+  exact ⟨this.2, this.1⟩
+
+/-- `BTryFrom<BInt> for BUint` (`uint_try_from_int!`) -/
+theorem UI.btryFromI_spec {w₁ n₁ w₂ n₂ : Nat} {x : List Nat} (hw₁ : 1 ≤ w₁) (hw₂ : 1 ≤ w₂)
+    (hn₁ : 1 ≤ n₁) (hn₂ : 1 ≤ n₂) (hdvd : w₁ ∣ w₂ ∨ w₂ ∣ w₁) (hx : WF w₁ n₁ x) :
+    ConvOk false w₂ n₂ (UI.btryFromI w₁ x w₂ n₂) (S w₁ x) := by
+  unfold UI.btryFromI
+  have hcast := castBnum_spec true false hw₁ hw₂ hn₁ hn₂ hdvd hx
+  simp only [valOf, if_true] at hcast
+  rw [hx.1, isNegative_eq_decide hw₁ hn₁ hx]
+  dsimp only
+  by_cases hneg : S w₁ x < 0
+  · simp only [hneg, decide_true, if_true]
+    exact Or.inr ⟨by simp [repOf, repU]; omega, rfl⟩
+  · simp only [hneg, decide_false, Bool.false_eq_true, if_false]
+    have hS := S_of_nonneg hx (by omega)
+    have hhalf := (S_lt_half hw₁ hn₁ hx).1
+    have hM := M_half w₁ n₁ (Nat.mul_pos hw₁ hn₁)
+    have hX : (if w₁ * n₁ - 1 ≤ w₂ * n₂ then Outcome.ok true
+        else (csub (w₁ * n₁) (II.leadingZeros w₁ x)).bind fun b => .ok (decide (b ≤ w₂ * n₂)))
+        = .ok (decide (U w₁ x < M w₂ n₂)) := by
+      split
+      · rename_i h
+        have h2 : 2 ^ (w₁ * n₁ - 1) ≤ M w₂ n₂ := two_pow_le_M h
+        have : U w₁ x < M w₂ n₂ := by rw [hS, hM] at hhalf; omega
+        simp [this]
+      · unfold II.leadingZeros
+        rw [bits_sub_lz hx, Outcome.bind_ok]
+        exact congrArg Outcome.ok (decide_eq_decide.2 (Bits.bitLen_le_iff _ _))
+    rw [hX, Outcome.bind_ok]
+    exact ConvOk.of_cast _ (by simp [repOf, repU, hS]) hcast
+
+/-- `BTryFrom<BUint> for BInt` (`int_try_from_uint!`) -/
+theorem II.btryFromU_spec {w₁ n₁ w₂ n₂ : Nat} {x : List Nat} (hw₁ : 1 ≤ w₁) (hw₂ : 1 ≤ w₂)
+    (hn₁ : 1 ≤ n₁) (hn₂ : 1 ≤ n₂) (hdvd : w₁ ∣ w₂ ∨ w₂ ∣ w₁) (hx : WF w₁ n₁ x) :
+    ConvOk true w₂ n₂ (II.btryFromU w₁ x w₂ n₂) (U w₁ x) := by
+  unfold II.btryFromU
+  have hcast := castBnum_spec false true hw₁ hw₂ hn₁ hn₂ hdvd hx
+  simp only [valOf, Bool.false_eq_true, if_false] at hcast
+  have hW₂ : 1 ≤ w₂ * n₂ := Nat.mul_pos hw₂ hn₂
+  have hu := U_lt hx
+  have hM := M_half w₂ n₂ hW₂
+  rw [hx.1]
+  dsimp only
+  have hs : csub (w₂ * n₂) 1 = .ok (w₂ * n₂ - 1) := by unfold csub; rw [if_pos hW₂]
+  rw [hs, Outcome.bind_ok]
+  have hX : (if w₁ * n₁ ≤ w₂ * n₂ - 1 then Outcome.ok true
+      else (csub (w₁ * n₁) (UI.leadingZeros w₁ x)).bind fun b => .ok (decide (b ≤ w₂ * n₂ - 1)))
+      = .ok (decide (U w₁ x < 2 ^ (w₂ * n₂ - 1))) := by
+    split
+    · rename_i h
+      have h2 : M w₁ n₁ ≤ 2 ^ (w₂ * n₂ - 1) := Nat.pow_le_pow_right (by decide) h
+      have : U w₁ x < 2 ^ (w₂ * n₂ - 1) := by omega
+      simp [this]
+    · rw [bits_sub_lz hx, Outcome.bind_ok]
+      exact congrArg Outcome.ok (decide_eq_decide.2 (Bits.bitLen_le_iff _ _))
+  rw [hX, Outcome.bind_ok]
+  refine ConvOk.of_cast _ ?_ hcast
+  simp only [decide_eq_true_iff, repOf, if_true, repS]
+  rw [hM]; omega
+
+/-- `BTryFrom<BInt> for BInt` (`int_try_from_int!`) -/
+theorem II.btryFromI_spec {w₁ n₁ w₂ n₂ : Nat} {x : List Nat} (hw₁ : 1 ≤ w₁) (hw₂ : 1 ≤ w₂)
+    (hn₁ : 1 ≤ n₁) (hn₂ : 1 ≤ n₂) (hdvd : w₁ ∣ w₂ ∨ w₂ ∣ w₁) (hx : WF w₁ n₁ x) :
+    ConvOk true w₂ n₂ (II.btryFromI w₁ x w₂ n₂) (S w₁ x) := by
+  unfold II.btryFromI
+  have hcast := castBnum_spec true true hw₁ hw₂ hn₁ hn₂ hdvd hx
+  simp only [valOf, if_true] at hcast
+  have hW₂ : 1 ≤ w₂ * n₂ := Nat.mul_pos hw₂ hn₂
+  have hu := U_lt hx
+  have hM₂ := M_half w₂ n₂ hW₂
+  have hrS := S_lt_half hw₁ hn₁ hx
+  have hs : csub (w₂ * n₂) 1 = .ok (w₂ * n₂ - 1) := by unfold csub; rw [if_pos hW₂]
+  rw [hx.1, isNegative_eq_decide hw₁ hn₁ hx]
+  dsimp only
+  split
+  · rename_i h
+    have hle : M w₁ n₁ ≤ M w₂ n₂ := M_le_of_le h
+    have := ConvOk.of_cast (s := true) true (by simp [repOf, repS]; omega) hcast
+    simpa using this
+  · rename_i h
+    by_cases hneg : S w₁ x < 0
+    · simp only [hneg, decide_true, if_true]
+      unfold II.leadingOnes
+      rw [bits_sub_lo hx, Outcome.bind_ok, hs, Outcome.bind_ok]
+      have hSx := S_of_neg hx hneg
+      have := ConvOk.of_cast (s := true)
+        (decide (Spec.bitLen (M w₁ n₁ - 1 - U w₁ x) ≤ w₂ * n₂ - 1)) (by
+          simp only [decide_eq_true_iff, repOf, if_true, repS]
+          rw [Bits.bitLen_le_iff, hM₂, hSx]; omega) hcast
+      simpa using this
+    · simp only [hneg, decide_false, Bool.false_eq_true, if_false]
+      unfold II.leadingZeros
+      rw [bits_sub_lz hx, Outcome.bind_ok, hs, Outcome.bind_ok]
+      have hSx := S_of_nonneg hx (by omega)
+      have := ConvOk.of_cast (s := true)
+        (decide (Spec.bitLen (U w₁ x) ≤ w₂ * n₂ - 1)) (by
+          simp only [decide_eq_true_iff, repOf, if_true, repS]
+          rw [Bits.bitLen_le_iff, hM₂, hSx]; omega) hcast
+      simpa using this
+
+/-- all four `BTryFrom` impls -/
+theorem btryFrom_spec {w₁ n₁ w₂ n₂ : Nat} {x : List Nat} (s₁ s₂ : Bool) (hw₁ : 1 ≤ w₁)
+    (hw₂ : 1 ≤ w₂) (hn₁ : 1 ≤ n₁) (hn₂ : 1 ≤ n₂) (hdvd : w₁ ∣ w₂ ∨ w₂ ∣ w₁) (hx : WF w₁ n₁ x) :
+    ConvOk s₂ w₂ n₂ (btryFrom w₁ s₁ x w₂ n₂ s₂) (valOf s₁ w₁ x) := by
+  unfold btryFrom valOf
+  cases s₁ <;> cases s₂ <;> simp only [Bool.false_eq_true, if_false, if_true]
+  · exact UI.btryFromU_spec hw₁ hw₂ hn₁ hn₂ hdvd hx
+  · exact II.btryFromU_spec hw₁ hw₂ hn₁ hn₂ hdvd hx
+  · exact UI.btryFromI_spec hw₁ hw₂ hn₁ hn₂ hdvd hx
+  · exact II.btryFromI_spec hw₁ hw₂ hn₁ hn₂ hdvd hx
+
+/-- a `From` conversion: no panic, well-formed result denoting exactly `z` -/
+def FromOk (s : Bool) (w n : Nat) (o : Outcome (List Nat)) (z : Int) : Prop :=
+  ∃ r, o = .ok r ∧ WF w n r ∧ valOf s w r = z
+
+theorem FromOk.ne_panic {s : Bool} {w n : Nat} {o : Outcome (List Nat)} {z : Int}
+    (h : FromOk s w n o z) : o ≠ .panic := by
+  obtain ⟨r, rfl, _⟩ := h; intro h; cases h
+
+theorem FromOk.map_id {s : Bool} {w n : Nat} {o : Outcome (List Nat)} {z : Int}
+    (h : FromOk s w n o z) : FromOk s w n (o.map II.fromBits) z := by
+  obtain ⟨r, rfl, h⟩ := h; exact ⟨r, rfl, h⟩
+
+theorem cast_u_mod {k w v : Nat} (hv : v < B k) : PInt.cast k false w v = v % B w := by
+  unfold PInt.cast
+  split
+  · rfl
+  · simp only [Bool.false_and, Bool.false_eq_true, if_false]
+    have : B k ≤ B w := Nat.pow_le_pow_right (by decide) (by omega)
+    rw [Nat.mod_eq_of_lt (by omega)]
+
+theorem two_pow_mul (i w : Nat) : 2 ^ (i * w) = B w ^ i := by rw [← B_mul]; rfl
+
+namespace UI
+theorem asBuintSt_succ_zero {w n v i : Nat} (hi : i < n) (h0 : dig w v i = 0) :
+    asBuintSt w n v (i + 1) = asBuintSt w n v i := by
+  unfold asBuintSt
+  rw [map_dig_succ, h0, List.append_assoc]
+  congr 1
+  obtain ⟨j, hj⟩ : ∃ j, n - i = j + 1 := ⟨n - i - 1, by omega⟩
+  rw [hj, show n - (i + 1) = j by omega, List.replicate_succ]; rfl
+
+theorem dig_eq_zero_of_lt {w v i : Nat} (h : v < B w ^ i) : dig w v i = 0 := by
+  unfold dig; rw [Nat.div_eq_of_lt h, Nat.zero_mod]
+
+theorem fromUintLoop_spec {w n k p : Nat} (hw : 1 ≤ w) (hp : p < B k) (hpM : p < M w n) :
+    ∀ (f i : Nat), k ≤ f + i →
+    ∃ j, fromUintLoop w k p f i (asBuintSt w n p (min i n)) = .ok (asBuintSt w n p (min j n))
+      ∧ k ≤ j * w := by
+  intro f
+  induction f with
+  | zero =>
+    intro i hi
+    refine ⟨i, rfl, ?_⟩
+    have : i ≤ i * w := Nat.le_mul_of_pos_right _ hw
+    omega
+  | succ f ih =>
+    intro i hi
+    unfold fromUintLoop
+    by_cases hik : i * w < k
+    · simp only [hik, if_true]
+      unfold PInt.shr
+      rw [if_pos hik, Outcome.bind_ok, shrRaw_unsigned, two_pow_mul,
+        cast_u_mod (Nat.lt_of_le_of_lt (Nat.div_le_self _ _) hp)]
+      change ∃ j, ((if (dig w p i != 0) = true then upd (asBuintSt w n p (min i n)) i (dig w p i)
+          else Outcome.ok (asBuintSt w n p (min i n))).bind
+            fun out => fromUintLoop w k p f (i + 1) out) = _ ∧ _
+      have hstep : (if (dig w p i != 0) = true then upd (asBuintSt w n p (min i n)) i (dig w p i)
+          else Outcome.ok (asBuintSt w n p (min i n)))
+          = .ok (asBuintSt w n p (min (i + 1) n)) := by
+        by_cases hd : dig w p i = 0
+        · simp only [hd, bne_self_eq_false, Bool.false_eq_true, if_false]
+          by_cases hin : i < n
+          · rw [Nat.min_eq_left (by omega), Nat.min_eq_left (by omega),
+              asBuintSt_succ_zero hin hd]
+          · rw [Nat.min_eq_right (by omega), Nat.min_eq_right (by omega)]
+        · have hne : (dig w p i != 0) = true := by simp [hd]
+          have hin : i < n := by
+            by_contra hc
+            apply hd
+            apply dig_eq_zero_of_lt
+            rw [M_eq_pow] at hpM
+            exact Nat.lt_of_lt_of_le hpM (B_pow_le (by omega))
+          rw [if_pos hne, Nat.min_eq_left (by omega), Nat.min_eq_left (by omega),
+            asBuintSt_upd hin]
+      rw [hstep, Outcome.bind_ok]
+      exact ih (i + 1) (by omega)
+    · simp only [hik, if_false]
+      exact ⟨i, rfl, by omega⟩
+
+/-- C13: `From<uK> for BUint<N>` whenever the VALUE fits (in particular whenever `K ≤ BITS`) -/
+theorem fromUint_spec {w n k p : Nat} (hw : 1 ≤ w) (hp : p < B k) (hpM : p < M w n) :
+    FromOk false w n (fromUint w n k p) (p : Int) := by
+  unfold fromUint
+  obtain ⟨j, h1, h2⟩ := fromUintLoop_spec (n := n) hw hp hpM k 0 (by omega)
+  rw [Nat.zero_min, asBuintSt_zero] at h1
+  refine ⟨_, h1, asBuintSt_WF w n p (Nat.min_le_right _ _), ?_⟩
+  simp only [valOf, Bool.false_eq_true, if_false]
+  rw [asBuintSt_U]
+  congr 1
+  apply Nat.mod_eq_of_lt
+  by_cases hjn : j ≤ n
+  · rw [Nat.min_eq_left hjn, ← two_pow_mul]
+    exact Nat.lt_of_lt_of_le hp (Nat.pow_le_pow_right (by decide) h2)
+  · rw [Nat.min_eq_right (by omega), ← M_eq_pow]; exact hpM
+end UI
+
+namespace II
+/-- `from_int!`, non-negative source -/
+theorem fromIntLoop_nonneg {w n k p : Nat} (hw : 1 ≤ w) (hk : k ≤ w * n) (hp : 2 * p < B k) :
+    ∀ (f i : Nat), k ≤ f + i → i ≤ n →
+    ∃ j, fromIntLoop w k p f i (UI.asBuintSt w n p i) = .ok (UI.asBuintSt w n p j)
+      ∧ j ≤ n ∧ k ≤ j * w := by
+  intro f
+  induction f with
+  | zero =>
+    intro i hi hin
+    refine ⟨i, rfl, hin, ?_⟩
+    have : i ≤ i * w := Nat.le_mul_of_pos_right _ hw
+    omega
+  | succ f ih =>
+    intro i hi hin
+    unfold fromIntLoop
+    by_cases hik : i * w < k
+    · have hin' : i < n := by
+        have : i * w < n * w := by rw [Nat.mul_comm n w]; omega
+        exact Nat.lt_of_mul_lt_mul_right this
+      simp only [hik, if_true]
+      unfold PInt.shr
+      rw [if_pos hik, Outcome.bind_ok]
+      have hv : p / 2 ^ (i * w) ≤ p := Nat.div_le_self _ _
+      have hsh : PInt.shrRaw k true p (i * w) = p / 2 ^ (i * w) := by
+        unfold PInt.shrRaw
+        have : (true && decide (B k ≤ 2 * p)) = false := by simp; omega
+        rw [this]; rfl
+      rw [hsh]
+      have hd : PInt.cast k true w (p / 2 ^ (i * w)) = dig w p i := by
+        unfold PInt.cast dig
+        rw [← two_pow_mul]
+        generalize p / 2 ^ (i * w) = v at *
+        split
+        · rfl
+        · have hs : (true && decide (B k ≤ 2 * v)) = false := by simp; omega
+          have : B k ≤ B w := Nat.pow_le_pow_right (by decide) (by omega)
+          simp only [hs, Bool.false_eq_true, if_false]
+          rw [Nat.mod_eq_of_lt (by omega)]
+      rw [hd, UI.asBuintSt_upd hin', Outcome.bind_ok]
+      exact ih (i + 1) (by omega) (by omega)
+    · simp only [hik, if_false]
+      exact ⟨i, rfl, hin, by omega⟩
+
+/-- `from_int!`, negative source: the complement of the digits of `!p` -/
+theorem fromIntLoop_neg {w n k p' : Nat} (hw : 1 ≤ w) (hk : k ≤ w * n) (hk1 : 1 ≤ k)
+    (hp' : 2 * p' < B k) :
+    ∀ (f i : Nat), k ≤ f + i → i ≤ n →
+    ∃ j, fromIntLoop w k (B k - 1 - p') f i (bnot w (UI.asBuintSt w n p' i))
+        = .ok (bnot w (UI.asBuintSt w n p' j)) ∧ j ≤ n ∧ k ≤ j * w := by
+  intro f
+  induction f with
+  | zero =>
+    intro i hi hin
+    refine ⟨i, rfl, hin, ?_⟩
+    have : i ≤ i * w := Nat.le_mul_of_pos_right _ hw
+    omega
+  | succ f ih =>
+    intro i hi hin
+    unfold fromIntLoop
+    by_cases hik : i * w < k
+    · have hin' : i < n := by
+        have : i * w < n * w := by rw [Nat.mul_comm n w]; omega
+        exact Nat.lt_of_mul_lt_mul_right this
+      simp only [hik, if_true]
+      unfold PInt.shr
+      rw [if_pos hik, Outcome.bind_ok]
+      have hBe : B k = 2 * (B k / 2) := B_even hk1
+      have hBK : B k = 2 ^ (i * w) * B (k - i * w) := by
+        unfold B; rw [← Nat.pow_add]; congr 1; omega
+      have ha : p' < 2 ^ (i * w) * B (k - i * w) := by omega
+      obtain ⟨_, hdiv⟩ := not_mod_mul (Nat.pow_pos (by decide)) ha
+      rw [← hBK] at hdiv
+      have hq : p' / 2 ^ (i * w) < B (k - i * w) :=
+        (Nat.div_lt_iff_lt_mul (Nat.pow_pos (by decide))).2 (by rw [Nat.mul_comm]; exact ha)
+      have hle : B (k - i * w) ≤ B k := Nat.pow_le_pow_right (by decide) (by omega)
+      have hsh : PInt.shrRaw k true (B k - 1 - p') (i * w) = B k - 1 - p' / 2 ^ (i * w) := by
+        unfold PInt.shrRaw
+        have : (true && decide (B k ≤ 2 * (B k - 1 - p'))) = true := by simp; omega
+        rw [this, if_pos rfl, hdiv]; omega
+      rw [hsh]
+      have hap : p' / 2 ^ (i * w) ≤ p' := Nat.div_le_self _ _
+      generalize ha' : p' / 2 ^ (i * w) = a at *
+      have hd : PInt.cast k true w (B k - 1 - a) = Prim.not w (dig w p' i) := by
+        unfold PInt.cast dig Prim.not
+        rw [← two_pow_mul, ha']
+        split
+        · rename_i hwk
+          have hBK2 : B k = B w * B (k - w) := by
+            unfold B; rw [← Nat.pow_add]; congr 1; omega
+          have := (not_mod_mul (B_pos w) (show a < B w * B (k - w) by omega)).1
+          rw [← hBK2] at this
+          exact this
+        · rename_i hwk
+          have hBw : B k ≤ B w := Nat.pow_le_pow_right (by decide) (by omega)
+          have : (true && decide (B k ≤ 2 * (B k - 1 - a))) = true := by simp; omega
+          rw [this, if_pos rfl, Nat.mod_eq_of_lt (by omega)]; omega
+      rw [hd]
+      unfold bnot
+      rw [upd_map, UI.asBuintSt_upd hin']
+      simp only [Outcome.map_ok, Outcome.bind_ok]
+      exact ih (i + 1) (by omega) (by omega)
+    · simp only [hik, if_false]
+      exact ⟨i, rfl, hin, by omega⟩
+
+/-- C13: `From<iK> for BInt<N>`, `K ≤ BITS` -/
+theorem fromInt_spec {w n k p : Nat} (hw : 1 ≤ w) (hn : 1 ≤ n) (hk1 : 1 ≤ k) (hk : k ≤ w * n)
+    (hp : p < B k) : FromOk true w n (fromInt w n k p) (toInt (B k) p) := by
+  unfold fromInt
+  have hBe : B k = 2 * (B k / 2) := B_even hk1
+  have hBM : B k ≤ M w n := Nat.pow_le_pow_right (by decide) hk
+  by_cases hneg : PInt.isNeg ⟨k, true⟩ p = true
+  · have hge : B k ≤ 2 * p := (PInt.isNeg_iff.mp hneg).2
+    simp only [hneg, if_true]
+    have hp' : 2 * (B k - 1 - p) < B k := by omega
+    obtain ⟨j, h1, h2, h3⟩ := fromIntLoop_neg (n := n) hw hk hk1 hp' k 0 (by omega) (by omega)
+    rw [show B k - 1 - (B k - 1 - p) = p by omega, UI.asBuintSt_zero] at h1
+    have hwf := UI.asBuintSt_WF w n (B k - 1 - p) h2
+    refine ⟨_, h1, WF_bnot hwf, ?_⟩
+    simp only [valOf, if_true]
+    have hlt : B k - 1 - p < B w ^ j := by
+      rw [← two_pow_mul]
+      exact Nat.lt_of_lt_of_le (show B k - 1 - p < B k by omega)
+        (Nat.pow_le_pow_right (by decide) h3)
+    have hU : U w (bnot w (UI.asBuintSt w n (B k - 1 - p) j)) = M w n - 1 - (B k - 1 - p) := by
+      rw [U_bnot hwf, UI.asBuintSt_U, Nat.mod_eq_of_lt hlt]
+    rw [S_eq (WF_bnot hwf), hU, toInt_of_ge hge, toInt_of_ge (by omega)]
+    omega
+  · have hlt : 2 * p < B k := by
+      by_contra hc
+      exact hneg (PInt.isNeg_iff.mpr ⟨rfl, by show B k ≤ 2 * p; omega⟩)
+    simp only [hneg]
+    obtain ⟨j, h1, h2, h3⟩ := fromIntLoop_nonneg (n := n) hw hk hlt k 0 (by omega) (by omega)
+    rw [UI.asBuintSt_zero] at h1
+    have hwf := UI.asBuintSt_WF w n p h2
+    refine ⟨_, h1, hwf, ?_⟩
+    simp only [valOf, if_true]
+    have hpj : p < B w ^ j := by
+      rw [← two_pow_mul]
+      exact Nat.lt_of_lt_of_le hp (Nat.pow_le_pow_right (by decide) h3)
+    rw [S_eq hwf, UI.asBuintSt_U, Nat.mod_eq_of_lt hpj, toInt_of_lt hlt, toInt_of_lt (by omega)]
+
+/-- C13 (F6): `From<uK> for BInt<N>` is correct when the target is strictly wider … -/
+theorem fromUint_partial {w n k p : Nat} (hw : 1 ≤ w) (hk : k < w * n) (hp : p < B k) :
+    FromOk true w n (fromUint w n k p) (p : Int) := by
+  unfold fromUint
+  have hBM : 2 * B k ≤ M w n := by
+    have : B (k + 1) ≤ M w n := Nat.pow_le_pow_right (by decide) hk
+    unfold B at *; rw [Nat.pow_succ] at this; omega
+  obtain ⟨r, h1, h2, h3⟩ := UI.fromUint_spec (n := n) hw hp (by omega)
+  rw [h1]
+  refine ⟨r, rfl, h2, ?_⟩
+  simp only [valOf, Bool.false_eq_true, if_false, if_true] at h3 ⊢
+  have : U w r = p := by exact_mod_cast h3
+  rw [S_eq h2, this, toInt_of_lt (by omega)]
+end II
+
+namespace UI
+/-- C13: `TryFrom<iK> for BUint<N>`, `K ≤ BITS` -/
+theorem tryFromIint_spec {w n k p : Nat} (hw : 1 ≤ w) (hk : k ≤ w * n)
+    (hp : p < B k) : ConvOk false w n (tryFromIint w n k p) (toInt (B k) p) := by
+  unfold tryFromIint
+  have hBM : B k ≤ M w n := Nat.pow_le_pow_right (by decide) hk
+  by_cases hneg : PInt.isNeg ⟨k, true⟩ p = true
+  · have hge : B k ≤ 2 * p := (PInt.isNeg_iff.mp hneg).2
+    simp only [hneg, if_true]
+    refine Or.inr ⟨?_, rfl⟩
+    simp only [repOf, Bool.false_eq_true, if_false, repU]
+    rw [toInt_of_ge hge]; omega
+  · have hlt : 2 * p < B k := by
+      by_contra hc
+      exact hneg (PInt.isNeg_iff.mpr ⟨rfl, by show B k ≤ 2 * p; omega⟩)
+    simp only [hneg]
+    have hc : PInt.cast k true k p = p := by
+      unfold PInt.cast; rw [if_pos (Nat.le_refl _), Nat.mod_eq_of_lt hp]
+    rw [hc, toInt_of_lt hlt]
+    obtain ⟨r, h1, h2, h3⟩ := fromUint_spec (n := n) hw hp (by omega)
+    rw [h1]
+    refine Or.inl ⟨?_, r, rfl, h2, h3⟩
+    simp only [repOf, Bool.false_eq_true, if_false, repU]
+    omega
+end UI
 
 end Bnum
